@@ -39,7 +39,7 @@ ASSUMPTIONS = [
     "std/var with ddof != 0 never use Numba (by design of the library) and are compared all the same",
 ]
 BOUND = {
-    "quick": "(a) 1..3 rows x groups {1,2}^n over 3-4 value alphabets for every (helper, dtype in bool,int,float,date,datetime) pair it accepts; (b) all ordered pairs of 9 first-uses (7 kernel-family representatives on float64 + first/int64, max/date, mode/bool): one process with cache off, and split across two processes sharing a cache",
+    "quick": "(a) 1..3 rows x groups {1,2}^n over 3-4 value alphabets for every (helper, dtype in bool,int,float,date,datetime) pair it accepts; (b) all ordered pairs of 9 first-uses (7 kernel-family representatives on float64 + first/int64, max/date, mode/bool): one process with cache off; the 30 ordered pairs of 6 of them split across two processes sharing a cache",
     "thorough": "(a) 1..4 rows; (b) all ordered pairs of all 16 helpers on each of float/int/bool/date x cache {off, cold, warmed by an earlier process}; all ordered triples of the 7 representatives; all ordered cross-dtype pairs of the representatives",
 }
 TIME_CAP = {"quick": 600, "thorough": 6000}
@@ -90,6 +90,7 @@ def shards(tier):
         fus = REPS + EXTRA
         for a, b in itertools.permutations(fus, 2):
             out.append({"mode": "history", "procs": [[a, b]], "cache": False})
+        for a, b in itertools.permutations(REPS[:5] + EXTRA[:1], 2):
             out.append({"mode": "history", "procs": [[a], [b]], "cache": True})
     else:
         for k in ("f8", "i8", "b1", "D"):
